@@ -87,6 +87,10 @@ func (c12) Run(e *Env) {
 	lim := rate.NewLimiter(rate.Inf, 1)
 	if e.Chance(1, 4) {
 		lim = rate.NewLimiter(rate.Limit(200), 1) // 5 ms apart: well above the worst-case refresh demand (4 sources x 20 ticks/s), so the dispatcher is never permanently saturated
+		if opts.CacheRefreshPeriod == time.Second && e.Bool() {
+			lim = rate.NewLimiter(rate.Limit(20), 1) // 50 ms apart: calls do wait for their token (refresh demand is 4 per second at most)
+			e.Probe("provider-calls-throttled")
+		}
 	}
 	ccp := cloudprovider.NewCachedCloudProvider(logrus.StandardLogger(), lim, prov, opts)
 	st := NewRecStatser()
